@@ -175,7 +175,9 @@ Definition a_std (d : string) (bs : nat) (keep : bool) (bkw : kwargs) (a : xarr)
       else
         do m <- a_mean d' bs keep bkw a;
         let mean_sq := a_scalar_op f_pow (CZ 2) [] m in
-        do s <- a_reduce f_sum bkw d' bs keep (a_scalar_op f_pow (CZ 2) [] a);
+        (* self.power(2.0): a FLOAT exponent, so that integer / boolean arrays are squared in floating point
+           and not in their own element type (fix4-C13) *)
+        do s <- a_reduce f_sum bkw d' bs keep (a_scalar_op f_pow (CF 2) [] a);
         let norm := a_scalar_op f_div (CZ (Z.of_nat n)) [] s in
         do df <- a_bin f_sub [] norm mean_sq;
         Ok (a_scalar_op f_pow CHalf [] df)
